@@ -106,6 +106,16 @@ async fn lit_step_named(_w: &mut ZA, step: &Step) {
     rec("lit_step_named", format!("{:?}", step.value));
 }
 
+#[given("costs 5$")]
+fn lit_dollar(_w: &mut ZA) {
+    rec("lit_dollar", String::new());
+}
+
+#[when("^caret first and last$")]
+fn lit_anchors(_w: &mut ZA) {
+    rec("lit_anchors", String::new());
+}
+
 #[given("tri one")]
 #[when("tri two")]
 #[then("tri three")]
@@ -327,6 +337,8 @@ fn defs() -> Vec<Def> {
         Def { world: 'A', kw: When, id: "lit_when", how: Literal("a literal step"), expect: none },
         Def { world: 'A', kw: Given, id: "lit_step_attr", how: Literal("step with ctx"), expect: |_, t| Ok(format!("{t:?}")) },
         Def { world: 'A', kw: Then, id: "lit_step_named", how: Literal("step named ctx"), expect: |_, t| Ok(format!("{t:?}")) },
+        Def { world: 'A', kw: Given, id: "lit_dollar", how: Literal("costs 5$"), expect: none },
+        Def { world: 'A', kw: When, id: "lit_anchors", how: Literal("^caret first and last$"), expect: none },
         Def { world: 'A', kw: Given, id: "tri", how: Literal("tri one"), expect: none },
         Def { world: 'A', kw: When, id: "tri", how: Literal("tri two"), expect: none },
         Def { world: 'A', kw: Then, id: "tri", how: Literal("tri three"), expect: none },
@@ -390,6 +402,7 @@ const CORPUS: &[&str] = &[
     "a literal step", "a literal step ", " a literal step", "xa literal step", "a literal stepx", "A literal step", "a literal  step",
     "literal with (parens) and . dots? [x] a|b ^$ {n} \\d+", "literal with parens and . dots? [x] a|b ^$ {n} \\d+", "literal with (parens) and x dots? [x] a|b ^$ {n} \\d+",
     "literal with (parens) and . dot [x] a|b ^$ {n} \\d+", "literal with (parens) and . dots? [x] a ^$ {n} \\d+", "literal with (parens) and . dots? [x] a|b ^$ {n} 12",
+    "costs 5$", "costs 5$ tomorrow", "it costs 5$", "costs 5", "^caret first and last$", "caret first and last", "x ^caret first and last$", "^caret first and last$ y",
     "step with ctx", "step named ctx", "tri one", "tri two", "tri three", "tri", "literal result err",
     // regex
     "7 apples", "07 apples", "7 apples!", "x 7 apples", "99999999999 apples", "bob owes ann 5", "so bob owes ann 5 bucks", "bob owes ann", "bob owes ann -5",
